@@ -142,23 +142,30 @@ func genKVs(t *rapid.T, max int) []kvSpec {
 func genScript(t *rapid.T) script {
 	s := script{Shift: rapid.SampledFrom([]int64{0, 7, 1000000}).Draw(t, "shift"), Driver: rapid.IntRange(0, 31).Draw(t, "driver")}
 	maxKV := lib.Pick(60, 120)
-	n := rapid.IntRange(6, lib.Pick(24, 40)).Draw(t, "nops")
 	parent := func() int {
 		if rapid.IntRange(0, 1).Draw(t, "tip") == 0 {
-			return rapid.IntRange(0, 1<<20).Draw(t, "parent")
+			return rapid.IntRange(0, 1<<20).Draw(t, "parent") // any earlier committed root
 		}
 		return -1
 	}
-	for i := 0; i < n; i++ {
-		switch k := rapid.SampledFrom([]string{"batch", "batch", "batch", "batch", "nmemset", "nmemset", "ncommit", "nrollback", "nrollback", "nset", "nread"}).Draw(t, "op"); k {
-		case "batch":
-			s.Ops = append(s.Ops, op{Op: k, Parent: parent(), KVs: genKVs(t, maxKV), MemSet: rapid.Bool().Draw(t, "memset")})
-		case "nmemset", "nset":
-			s.Ops = append(s.Ops, op{Op: k, Parent: parent(), KVs: genKVs(t, maxKV)})
-		case "ncommit", "nrollback":
-			s.Ops = append(s.Ops, op{Op: k, Pend: rapid.IntRange(0, 1<<20).Draw(t, "pend")})
-		case "nread":
-			s.Ops = append(s.Ops, op{Op: k, Parent: parent()})
+	// rounds of [unrelated pending updates, some of them committed / rolled back / left pending, reads] + one batch
+	nb := rapid.IntRange(2, lib.Pick(8, 14)).Draw(t, "batches")
+	for b := 0; b <= nb; b++ {
+		for k := rapid.IntRange(0, 3).Draw(t, "noise"); k > 0; k-- {
+			switch kind := rapid.SampledFrom([]string{"nmemset", "nmemset", "nmemset", "nset", "nread"}).Draw(t, "nkind"); kind {
+			case "nmemset":
+				s.Ops = append(s.Ops, op{Op: kind, Parent: parent(), KVs: genKVs(t, maxKV)})
+				if fate := rapid.SampledFrom([]string{"nrollback", "nrollback", "ncommit", ""}).Draw(t, "fate"); fate != "" {
+					s.Ops = append(s.Ops, op{Op: fate, Pend: rapid.IntRange(0, 1<<20).Draw(t, "pend")}) // any pending update, not only the newest
+				}
+			case "nset":
+				s.Ops = append(s.Ops, op{Op: kind, Parent: parent(), KVs: genKVs(t, maxKV)})
+			case "nread":
+				s.Ops = append(s.Ops, op{Op: kind, Parent: parent()})
+			}
+		}
+		if b < nb {
+			s.Ops = append(s.Ops, op{Op: "batch", Parent: parent(), KVs: genKVs(t, maxKV), MemSet: rapid.Bool().Draw(t, "memset")})
 		}
 	}
 	return s
